@@ -729,8 +729,22 @@ def intersection_operand_rule(crate, prop, rule):
                     arg = " ".join(toks)
                     ok = bool(re.match(r"^# \w+ :: intersection_operand \( .* \)$", arg)) or (toks[:1] == ["("] and toks[-1:] == [")"])
                     why = "intersection_operand()" if ok else None
+                    t_ctx = t
+                    m1 = re.match(r"^# (\w+)$", arg)
+                    if not ok and m1:
+                        # a token stream built elsewhere: look at the template it was built from
+                        loc1 = next((l for (n2, l, _) in t.interps if n2 == m1.group(1)), None)
+                        tp1 = Q.stream_template(ib, loc1, tpls) if loc1 is not None else None
+                        if tp1 is None:
+                            r.inst(fn=ib.path, literal=u, operand=arg[:120], atomic=None, because="the operand is a token stream whose template is not visible here: undecided", where="%s:%s" % (t.file, t.line))
+                            continue
+                        arg = tp1.text()
+                        t_ctx = tp1
+                        ok = bool(re.match(r"^# \w+ :: intersection_operand \( .* \)$", arg)) or arg.startswith("( ") and arg.endswith(" )")
+                        why = "intersection_operand()" if ok else None
                     mj = re.search(r":: join \( & \[ ,? ?# (\w+) \] , \" & \" \)$", arg)
                     if not ok and mj:
+                        t = t_ctx
                         # the list that is joined: everything pushed to it must be an inline_flattened() part
                         nm = mj.group(1)
                         loc = next((l for (n2, l, _) in t.interps if n2 == nm), None)
@@ -754,7 +768,7 @@ def intersection_operand_rule(crate, prop, rule):
                             pushed.append(tp.text() if tp is not None else None)
                         ok = bool(pushed) and all(p is not None and re.search(r":: inline_flattened \( \)$", p) for p in pushed)
                         why = "join over %d inline_flattened() part(s)" % len(pushed) if ok else None
-                        if not pushed:
+                        if not pushed or (not ok and all(p is None or re.search(r":: inline_flattened \( \)$", p) for p in pushed)):
                             # the list is filled somewhere this function's MIR does not show (through a closure): undecided
                             r.inst(fn=ib.path, literal=u, operand=arg[:120], atomic=None, because="joined list is filled out of sight: undecided", where="%s:%s" % (t.file, t.line))
                             continue
